@@ -51,6 +51,8 @@ pub enum TOp {
     Publish { slot: u8, content: u8 },
     Withdraw { slot: u8 },
     Read,
+    /// queues the snapshot task (snapshots of all entities; the write-ahead log of the repository content is truncated)
+    Snapshot,
     /// the spare CA `ca3` (no parent, nothing published) exists to be deleted while others use it
     SpareUpdateId,
     SpareRead,
@@ -83,6 +85,7 @@ fn top() -> impl Strategy<Value = TOp> {
         4 => (0u8..6, 0u8..4).prop_map(|(slot, content)| TOp::Publish { slot, content }),
         2 => (0u8..6).prop_map(|slot| TOp::Withdraw { slot }),
         2 => Just(TOp::Read),
+        2 => Just(TOp::Snapshot),
         2 => Just(TOp::SpareUpdateId),
         2 => Just(TOp::SpareRead),
         3 => Just(TOp::SpareDelete),
@@ -242,6 +245,7 @@ fn run_thread(w: &World, t: usize, ops: &[TOp], stop: &AtomicBool) -> Done {
                     r
                 }
             }
+            TOp::Snapshot => w.schedule(krill::server::mq::Task::UpdateSnapshots),
             TOp::Read => {
                 // readers: every entity loads and lists
                 for ca in CAS {
@@ -375,6 +379,10 @@ fn run_case(case: &Case) -> Result<Result<Vec<String>, Bad>, String> {
     }
     // no status update of the concurrent phase was lost: with all threads done, the status that
     // the instance reports (its cache) is the status that was written through to storage
+    // nor a publication: what the repository serves is what a new instance would load from storage
+    if let Err(b) = super::c06::repo_content_live_vs_rebuilt(&world) {
+        return Ok(Err((format!("c18-{}", b.0), b.1, format!("right after the concurrent phase: {}", b.2))));
+    }
     match super::c19::status_cache_vs_storage(&world) {
         Err(b) => return Ok(Err((format!("c18-{}", b.0), b.1, format!("right after the concurrent phase: {}", b.2)))),
         Ok(n) if n > 0 => {
